@@ -1,4 +1,4 @@
-SERVED = ["C06", "C08", "C13", "C16", "C17", "C18", "C20"]
+SERVED = ["C06", "C08", "C13", "C16", "C17", "C18", "C19", "C20"]
 HOOKS = {
     "guard": "PSYCHEC_VERIF",
     "enable": "harness/Makefile compiles /repo's sources with -DPSYCHEC_VERIF into /verif/.cache/build-<flavour>/; "
@@ -105,5 +105,17 @@ CHECKS = {
         "note": "Trusted: Coq kernel; hand transcription C16Model.v (std::upper_bound as a linear scan over the sorted table); directive recognition by regular expression in the check; extraction; harness. "
                 "Valid UTF-8 assumed. Print Assumptions: closed under the global context.",
         "technique": "Coq proof by induction over arbitrary texts (closed form of the position arithmetic, relational laws as corollaries) + model/implementation correspondence",
+    },
+    "C19": {
+        "text": "Theorems over the hand-transcribed driver model: C19_exit_iff_clean — for every argument vector that decodes to documented option values (any number of files, any per-file "
+                "outcome, any preprocessing outcome), the exit status is 0 exactly when preprocessing succeeded (or was skipped) and no file has a syntax error nor, unless -fsyntax-only, a "
+                "semantic error; C19_malformed_rejected — every argument vector the decoder rejects exits 1 with its message; C19_documented_values_accepted — the full cross product of "
+                "documented values (6 x 4 x 3 x 3 x 2 x 2) decodes to those values and passes every configuration ladder.  The model is tied to the code by running the real cnip executable "
+                "(built from /repo on every run) on that cross product x 10 files and on malformed/random argument vectors, comparing exit status, termination by signal, driver messages and the "
+                "number of printed diagnostics against the model fed with the library's own diagnostics for the same file and configuration.",
+        "design_ref": "DESIGN.md section 6, C19",
+        "note": "Trusted: Coq kernel; hand transcription C19Model.v; extraction; the harness' diag request mirroring Driver::runCFrontEnd's ParseOptions; gcc as external preprocessor for the few -pp s/r runs. "
+                "Plug-in loading and sub-command execution are oracles of the model. 'Never terminates by a signal' is observed, not proved.",
+        "technique": "Coq proof over a driver model (decision logic as implications, finite cross product by vm_compute) + end-to-end correspondence with the real executable",
     },
 }
